@@ -12,11 +12,12 @@ CLAIMED = {
          'the pending charge, a charge and its inverse cancel. The model is compared exactly with the real method for random insertion histories in 6 symmetries. '
          'Proved on programs TRANSLATED from yastn/tn/fpeps/envs/_env_window.py on every run (tr_window): while the fermionic string of a 2-site measurement passes a '
          'site (same row/column and later ones) the swaps it leaves there do not depend on whether that site is among the requested pairs, a listed site is measured '
-         'exactly once with its operator set and restored, and both sweeps leave the same string. NOT '
+         'exactly once with its operator set and restored, and both sweeps leave the same string (premise checked by the translator: the transfer matrix is fetched anew '
+         'from the environment for every first operator, before each loop over passed sites). NOT '
          'proved: the environment contractions, positivity of bond metrics, exactness of evolution steps -- on finite PEPS (1x3 .. 3x3; product states + random shallow '
          'circuits; spinless / spinful fermions, spins) the identity, 1-site, nearest-neighbour, 2-site (both directions, sub-windows) and 3-site expectation values of '
          'boundary-MPS, CTM (init=dl + expand_outward_) and BP (strips) environments are compared with the dense state using explicit Jordan-Wigner matrices; NTU bond '
-         'metrics of 6 cluster types are checked to be Hermitian and positive semi-definite; evolution_step_ with non-binding limits is compared with apply_gate_ and '
+         'metrics of 6 cluster types are checked to be Hermitian and positive semi-definite (shallow-circuit states and generic random PEPS, every bond, QR-reduced tensors); measure_2site also with lists of operators at both sites; evolution_step_ with non-binding limits is compared with apply_gate_ and '
          'must report a round-off truncation error.'),
    design_ref='DESIGN.md section 0.2 / 6 C12',
    note=('Trusted: Coq kernel, no axioms; the swaps model is hand-written (tied by exact correspondence); dense references rely on Peps.to_tensor (validated by C11) and on '
@@ -110,7 +111,7 @@ CLAIMED = {
          'any length leaves EVERY amplitude unchanged, so does every finite sequence of such moves, and a central block on a bond equals its absorption into either '
          'neighbour -- tied exactly to the real absorb_central_ on integer data (opcode 82); the premise A = Q.(nR C) is checked on every real orthogonalize_site_. NOT proved: that QR/SVD '
          'per block meet their specification and that projections along the sweep are orthogonal -- the dense state before/after every move (normalize on/off, factor), '
-         'isometries, norm(), Schmidt values and entropies across every cut vs numpy SVD, single-cut truncation (largest values kept, weight, factor), and the reported '
+         'isometries, norm(), Schmidt values and entropies across every cut vs numpy SVD, single-cut truncation (largest values kept, weight, factor; normalize off and on), and the reported '
          'discarded weight of binding sweeps vs the true relative distance are compared numerically for every operator family x symmetry, N=1..6, generic and '
          'rank-deficient/degenerate integer data.'),
    design_ref='DESIGN.md section 6 C08',
@@ -191,7 +192,8 @@ CLAIMED = {
          'multiplicative over the swapped pairs; sign_canonical_order equals the inversion parity of the site sequence weighted by charge products '
          '(operators on one site never swapped; ordered sites give +1). The models are executed (extracted) against the real per-block negation pattern and '
          'the real sign_canonical_order. NOT proved: order-independence of ncon with swaps on contracted legs (jump-move scheduler) and fkron CAR for all N: '
-         'covered by running ALL contraction orders of generated fermionic networks (odd and even tensors, product symmetries with partial fermionic flags) and '
+         'covered by running ALL contraction orders of generated fermionic networks (odd and even tensors, product symmetries with partial fermionic flags; also vs the explicit '
+         'outer product / swap_gate / trace evaluation, with legs relabelled, and with a pair entered twice in the swap list, which must cancel) and '
          'by comparing fkron with explicit Jordan-Wigner matrices for all site permutations and application orders, exactly.'),
    design_ref='DESIGN.md section 6 C05',
    note=('Trusted: Coq kernel, no axioms; hand-written sign models tied by exact correspondence; the ncon scheduler (_meta_ncon/_resolve_bad_swaps) is not modelled.'),
